@@ -119,29 +119,37 @@ def run(res, ctx):
                      ("two-chars-one-line", "x = 1  # ⁩ then {c}\n", 1),
                      # characters str.splitlines() treats as line ends but Python's parser does not (seeded change C10-m2)
                      ("after-formfeed-line", "x = 1\n\x0c\ny = 2  # {c}\n", 3), ("after-u2028-in-string", "s = 'a\u2028b'\ny = 2  # {c}\n", 2),
-                     ("after-vt-fs-nel-u2029", "s = 'a\x0bb\x1cc\x85d\u2029e\x1d\x1e'\n# {c}\n", 2), ("formfeed-same-line", "\x0cx = 1  # {c}\n", 1)]
+                     ("after-vt-fs-nel-u2029", "s = 'a\x0bb\x1cc\x85d\u2029e\x1d\x1e'\n# {c}\n", 2), ("formfeed-same-line", "\x0cx = 1  # {c}\n", 1),
+                     # a module without a single statement (licence header, empty __init__): still scanned (seeded change C19-m5 returned early on zero lines of code)
+                     ("comment-only-module", "# licence {c} header\n# more text\n", 1), ("comment-only-no-newline", "#{c}", 1), ("blank-then-comment", "\n\n   # {c}\n", 3)]
         chars = BIDI if thorough else rng.sample(BIDI, 4)
         reqs, expect = [], []
+        cols = {}
         for ch in chars:
             for pname, tmpl, line in positions:
                 text = tmpl.replace("{c}", ch)
-                for nl in ("\n", "\r\n"):
-                    raw = text.replace("\n", nl).encode("utf-8")
-                    # expected per the property: B613 reported (HIGH/MEDIUM) on the first line containing a bidi char
+                for nl, bom in (("\n", b""), ("\r\n", b""), ("\n", codecs.BOM_UTF8), ("\r\n", codecs.BOM_UTF8)):
+                    raw = bom + text.replace("\n", nl).encode("utf-8")
+                    # expected per the property: B613 reported (HIGH/MEDIUM) on the first line containing a bidi char, at the SAME column through every channel
+                    # (a BOM is not a character of line 1: seeded change C19-m6 shifted the column by one in BOM files)
                     for chan in ("file", "stdin"):
                         r = scan_file(scratch, raw) if chan == "file" else scan_stdin(raw)
-                        res.case(("bidi", ch, pname, nl, chan), True)
+                        res.case(("bidi", ch, pname, nl, bool(bom), chan), True)
                         res.count("bidi:" + pname)
                         ok = False
                         try:
                             fs, errs = findings_of_json(r["out"])
                             b = [f for f in fs if f[0] == "B613"]
                             ok = len(b) == 1 and b[0][1] == "HIGH" and b[0][2] == "MEDIUM" and b[0][3] == line and not errs
+                            if ok:
+                                col0 = cols.setdefault((ch, pname), b[0][5])
+                                ok = b[0][5] == col0
                         except Exception:
                             fs = None
                         if not ok:
                             res.violation("bidirectional control character not reported as B613 on its line through this channel",
-                                          {"char": "U+%04X" % ord(ch), "position": pname, "newline": repr(nl), "channel": chan, "source_hex": raw.hex(),
+                                          {"char": "U+%04X" % ord(ch), "position": pname, "newline": repr(nl), "bom": bool(bom), "channel": chan, "source_hex": raw.hex(),
+                                           "column_through_the_first_channel": cols.get((ch, pname)),
                                            "findings": [list(x) for x in fs] if fs else None, "exit": r["exit"], "exc": r["exc"]})
                     if d is not None:
                         reqs.append(C.scan_request(raw))
@@ -182,7 +190,8 @@ def run(res, ctx):
                 if diff:
                     res.break_("correspondence", {"source_hex": raw.hex(), "diff": diff})
         # ---- (3) undecodable under the declared encoding => skipped with a reason
-        bad = [b"# -*- coding: ascii -*-\nx = '\xe9'\n", b"# coding: utf-8\nx = '\xff\xfe'\n", b"\xef\xbb\xbf# coding: latin-1\nx = 1\n", b"# coding: no-such-codec\nx = 1\n"]
+        bad = [b"# -*- coding: ascii -*-\nx = '\xe9'\n", b"# coding: utf-8\nx = '\xff\xfe'\n", b"\xef\xbb\xbf# coding: latin-1\nx = 1\n", b"# coding: no-such-codec\nx = 1\n",
+               b"# -*- coding: ascii -*-\n# only a comment \xe9\n"]
         healthy = b"import pickle\n"
         for raw in bad:
             p1 = scratch.fresh("bad.py", raw)
